@@ -273,6 +273,50 @@ def wire_mapping(chk, ex):
     return D
 
 
+def responses_carry_daystart(chk, ex, napps):
+    o = chk.ob('responses-carry-daystart[%d apps]' % napps, 'StateMachine::make_app_responses (every check that ends without an install): one AppResponse per app of the server response, in order, each with that app\'s id and cohort and with the response\'s day number as user counting (cleared if the response has none) - for every app, not only the first')
+    D = Decide(chk, ex, o, cross=False)
+    fn = find_method(ex, 'StateMachine::make_app_responses')
+    RSP = 'protocol::response::Response'
+    RA = 'protocol::response::App'
+    R = 'update_check::AppResponse'
+    st0 = State()
+    rapps = [Tree({}, 'rapp%d' % i, RA) for i in range(napps)]
+    resp = Tree({}, 'srvresp', RSP)
+    ds = ex.child(st0, resp, fidx(ex, RSP, 'daystart'), 'std::option::Option<protocol::response::DayStart>')
+    resp.f[fidx(ex, RSP, 'apps')] = mk_vec(rapps, 'Vec<protocol::response::App>')
+    res = ex.run_fn(fn, [resp, Tree({}, 'action', 'update_check::Action')], st0)
+    D.no_bad_status(res)
+    n = 0
+    for st in res:
+        if st.status != 'done':
+            continue
+        n += 1
+        items = vec_items(ex, st, st.result, R)
+        if len(items) != napps:
+            D.failed = D.failed or ('violated', '%d app responses for %d apps in the server response' % (len(items), napps), None, st)
+            continue
+        has = ex.discr_of(st, ds).t == 1
+        dv = payload(ex, st, ds, 1, 0, 'protocol::response::DayStart')
+        el = ex.child(st, dv, fidx(ex, 'protocol::response::DayStart', 'elapsed_days'), 'std::option::Option<u32>')
+        want = (z3.And(has, ex.discr_of(st, el).t == 1), payload(ex, st, el, 1, 0, 'u32').t)
+        for i, r in enumerate(items):
+            got = uc_terms(ex, st, ex.child(st, r, fidx(ex, R, 'user_counting'), 'common::UserCounting'))
+            D.require(st, uc_eq(got, want), 'app response %d carries the response\'s day number (cleared if absent)' % i)
+            rid = as_str(ex, st, ex.child(st, r, fidx(ex, R, 'app_id'), 'String')).t
+            aid = as_str(ex, st, ex.child(st, rapps[i], fidx(ex, RA, 'id'), 'String')).t
+            D.require(st, rid == aid, 'app response %d names app %d of the server response' % (i, i))
+            gc = cohort_fields(ex, st, ex.child(st, r, fidx(ex, R, 'cohort'), 'protocol::Cohort'))
+            wc = cohort_fields(ex, st, ex.child(st, rapps[i], fidx(ex, RA, 'cohort'), 'protocol::Cohort'))
+            D.require(st, z3.And(*[opt_str_eq(a, b) for a, b in zip(gc, wc)]), 'app response %d carries its app\'s cohort fields' % i)
+    if n == 0:
+        D.failed = D.failed or ('inconclusive', 'make_app_responses: no completed path', None, None)
+    f = D.done()
+    if f and f[0] == 'violated':
+        o.key = 'responses-carry-daystart'
+    return D
+
+
 def run(chk):
     ex = make_sm_executor(chk, dict(unroll=8 if chk.tier == 'quick' else 14, env_assume=None, shape=lambda o, t: 2), cuts=())
     cohort_merge(chk, ex)
@@ -282,10 +326,12 @@ def run(chk):
     app_load(chk, ex)
     app_persist(chk, ex)
     wire_mapping(chk, ex)
+    for na in ((1, 2) if chk.tier == 'quick' else (1, 2, 3)):
+        responses_carry_daystart(chk, ex, na)
     chk.absorb(ex)
     sutmon.monitor_start_update_check(chk, (1, 2))
     sutmon.monitor_ping(chk, 1, 2)
-    keep = [o.name for o in chk.obligations if o.name.startswith(('cohort', 'routing', 'load-', 'persist-under', 'wire-'))] + ['app-set-updated-only-on-success', 'ping-bookkeeping']
+    keep = [o.name for o in chk.obligations if o.name.startswith(('cohort', 'routing', 'load-', 'persist-under', 'wire-', 'responses-carry'))] + ['app-set-updated-only-on-success', 'ping-bookkeeping']
     chk.obligations = [o for o in chk.obligations if o.name in keep]
     chk.bounds.update({'apps x responses': [list(s) for s in shapes], 'strings': 'unbounded (z3 string theory; only equality and emptiness are used)'})
     chk.assumptions += [
